@@ -54,6 +54,7 @@ IMPORTS = "From CM Require Import Harness.RunBase Harness.C15_run Model.Report M
 K_XML_DESC = "kf_c15_xml_change_description_none"
 K_XML_DIFF = "kf_c15_xml_empty_diff"
 K_VALIDATOR = "kf_c15_change_validator_weak"
+K_FINDING_ID = "kf_c15_finding_id_is_rule_id"
 
 
 # ------------------------------------------------------------------------------------------------
@@ -814,9 +815,11 @@ def scenarios(ctx):
     s_files = {"t.py": "assert (1 == 1, 'msg')\nx = 1\n", "n.py": "import numpy as np\n\nif a == np.nan:\n    pass\n", "broken.py": "assert (1,\n"}
     issues = {"issues": [sonar_issue("K1", "python:S5905", "t.py", 1, 7, 22), sonar_issue("K2", "python:S6725", "n.py", 3, 3, 14),
                          sonar_issue("K3", "python:S5905", "broken.py", 1, 7, 10)]}
-    add("sonar-issues", s_files, ["--sonar-issues-json", "@issues.json"], aux={"issues.json": json.dumps(issues)})
+    keys = {"t.py": ["K1"], "n.py": ["K2"], "broken.py": ["K3"]}
+    add("sonar-issues", s_files, ["--sonar-issues-json", "@issues.json"], aux={"issues.json": json.dumps(issues)}, finding_keys=keys)
     add("sonar-issues-include", s_files, ["--sonar-issues-json", "@issues.json", "--codemod-include",
-                                          "sonar:python/fix-assert-tuple,sonar:python/numpy-nan-equality"], aux={"issues.json": json.dumps(issues)})
+                                          "sonar:python/fix-assert-tuple,sonar:python/numpy-nan-equality"], aux={"issues.json": json.dumps(issues)},
+        finding_keys=keys)
     # SAST: Semgrep SARIF
     yline = 'data = yaml.load("a: 1", Loader=yaml.Loader)'
     y_files = {"y.py": "import yaml\n" + yline + "\n", "z.py": SNIPPETS["nothing"]}
@@ -934,6 +937,18 @@ def run_e2e(ctx):
                                     cwd=str(o["root"].parent))
         for p in problems:
             ctx.violation(p.split(":", 1)[0], f"scenario {sc['name']}: {p}", dict(replay, observed=core.normalise_report(rep), expected="no problem reported by check_report"))
+        # SAST results carry the FINDING identifiers: the ids reported for a file are ids of the tool's findings in that file
+        if sc.get("finding_keys"):
+            for x in rep["results"]:
+                got = [(cs["path"], fd) for cs in x.get("changeset", []) for ch in cs.get("changes", []) for fd in ch.get("findings") or []]
+                got += [(u.get("path"), u) for u in x.get("unfixedFindings") or []]
+                for path, fd in got:
+                    if fd.get("id") not in sc["finding_keys"].get(path, []):
+                        same = fd.get("id") == (fd.get("rule") or {}).get("id")
+                        ctx.violation(K_FINDING_ID if same else chk.K_SAST,
+                                      f"scenario {sc['name']}: {x['codemod']}: finding reported for {path} has id {fd.get('id')!r}, the tool's findings "
+                                      f"there are {sc['finding_keys'].get(path)}" + (" (the rule id is reported as the finding id)" if same else ""),
+                                      dict(replay, observed=core.normalise_report(rep), expected="findings[].id is the key of the Sonar issue"))
         nontrivial = any(x.get("changeset") or x.get("failedFiles") for x in rep["results"])
         for x in rep["results"]:
             ctx.count("e2e:results")
@@ -1034,6 +1049,8 @@ def replay(ctx, body):
             rep = json.loads(o["out"].read_text())
             ids = chk.executed_ids_from_log(o["run"]["stdout"], o["run"]["stderr"]) or chk.selected_ids_from_log(o["run"]["stdout"], o["run"]["stderr"])
             print("problems now:", chk.check_report(rep, o["root"], ids, before=sc["files"], cwd=str(o["root"].parent)))
+            print("finding ids now:", sorted({fd.get("id") for x in rep["results"] for cs in x.get("changeset", []) for ch in cs.get("changes", [])
+                                              for fd in ch.get("findings") or []} | {u.get("id") for x in rep["results"] for u in x.get("unfixedFindings") or []}))
     elif op == "xml":
         run_xml(ctx)
         print("violations now:", [v["what"] for v in ctx.violations])
